@@ -113,9 +113,10 @@ pub enum DriverEvent {
     Write { driver: usize, image: Vec<u8> },
     ReadErr { driver: usize },
     WriteErr { driver: usize },
+    /// runtime event drained from the shared DebugControl at a driver call (rendered)
+    Rt(String),
 }
 
-#[derive(Debug, Default)]
 pub struct DriverShared {
     /// global event log shared by all drivers of a world
     pub log: Vec<DriverEvent>,
@@ -130,6 +131,45 @@ pub struct DriverShared {
     pub fail_write: Vec<bool>,
     /// persistent failure (until cleared)
     pub fail_write_always: Vec<bool>,
+    /// fail the next n writes of driver i
+    pub fail_write_n: Vec<u32>,
+    /// when set, every driver call first drains the runtime events into the log (fixes the
+    /// order of driver calls relative to CycleStart/TaskStart/Fault/... events)
+    pub debug: Option<trust_runtime::debug::DebugControl>,
+}
+
+impl std::fmt::Debug for DriverShared {
+    fn fmt(&self, f: &mut std::fmt::Formatter<'_>) -> std::fmt::Result {
+        f.debug_struct("DriverShared").field("log", &self.log).finish()
+    }
+}
+
+pub fn render_event(ev: &trust_runtime::debug::RuntimeEvent) -> String {
+    use trust_runtime::debug::RuntimeEvent as E;
+    match ev {
+        E::CycleStart { .. } => "CycleStart".to_string(),
+        E::CycleEnd { .. } => "CycleEnd".to_string(),
+        E::TaskStart { name, .. } => format!("TaskStart:{name}"),
+        E::TaskEnd { name, .. } => format!("TaskEnd:{name}"),
+        E::TaskOverrun { name, .. } => format!("TaskOverrun:{name}"),
+        E::Fault { error, .. } => format!("Fault:{error}"),
+        #[allow(unreachable_patterns)]
+        other => {
+            let t = format!("{other:?}");
+            t.split(|c: char| !c.is_alphanumeric()).next().unwrap_or("").to_string()
+        }
+    }
+}
+
+impl DriverShared {
+    /// move pending runtime events into the log
+    pub fn drain_events(&mut self) {
+        if let Some(d) = &self.debug {
+            for ev in d.drain_runtime_events() {
+                self.log.push(DriverEvent::Rt(render_event(&ev)));
+            }
+        }
+    }
 }
 
 impl DriverShared {
@@ -143,6 +183,8 @@ impl DriverShared {
             fail_read: vec![false; n],
             fail_write: vec![false; n],
             fail_write_always: vec![false; n],
+            fail_write_n: vec![0; n],
+            debug: None,
         }))
     }
 }
@@ -156,6 +198,7 @@ impl IoDriver for SimDriver {
     fn read_inputs(&mut self, inputs: &mut [u8]) -> Result<(), RuntimeError> {
         let mut s = self.shared.lock().unwrap_or_else(|e| e.into_inner());
         let i = self.index;
+        s.drain_events();
         s.read_calls[i] += 1;
         if s.fail_read[i] {
             s.fail_read[i] = false;
@@ -185,9 +228,11 @@ impl IoDriver for SimDriver {
     fn write_outputs(&mut self, outputs: &[u8]) -> Result<(), RuntimeError> {
         let mut s = self.shared.lock().unwrap_or_else(|e| e.into_inner());
         let i = self.index;
+        s.drain_events();
         s.write_calls[i] += 1;
-        if s.fail_write[i] || s.fail_write_always[i] {
+        if s.fail_write[i] || s.fail_write_always[i] || s.fail_write_n[i] > 0 {
             s.fail_write[i] = false;
+            s.fail_write_n[i] = s.fail_write_n[i].saturating_sub(1);
             s.log.push(DriverEvent::WriteErr { driver: i });
             return Err(RuntimeError::IoDriver("sim write fault".into()));
         }
